@@ -60,6 +60,7 @@ def run(ctx):
                 if conf == 'layers':
                     for layer in obj.layers_forward():
                         layer.compile(N)
+                    ctx.drv.ask('circ %s compilelayers' % a)
                 if conf == 'compiled':
                     obj.compile()
                     ctx.drv.ask('circ %s compile' % a)
@@ -91,7 +92,7 @@ def run(ctx):
             if impl.ops_of(st) != [(x[0], x[1] % 4) for x in rows] or int(st.r) != r:
                 ctx.fail('%s.backward' % type(obj).__name__, 'state (strings, phases, rank) not restored (configuration %s, order %s)' % (conf, order),
                          dict(rep, rows=rows, r=r, got=impl.ops_of(st), got_r=int(st.r)))
-            if conf in ('plain', 'compiled', 'recompiled'):
+            if conf in ('plain', 'compiled', 'recompiled', 'layers'):
                 d1, d2 = ('fwd', 'bwd') if order == 'bf' else ('bwd', 'fwd')
                 ans = ctx.drv.ask('circ %s %s L 0 %s _ - none' % (a, d1, H.erows_ops(Ps)))
                 ctx.count('corr:' + d1); ctx.traces += 1
